@@ -419,8 +419,10 @@ def jobs(tier):
                   ('p4', 't_ring5', False), ('star4', 't_house', False), ('ring4', 't_house', False),
                   ('p2+1', 't_tri+p2', False), ('ring4', 't_diamond', False)]
     for p, t, sb in combos:
+        # 4-atom patterns on 5-atom targets did not finish in 40 minutes with three charge values: two there
+        wide = T and (p, t) not in (('p4', 't_ring5'), ('star4', 't_house'), ('ring4', 't_house'))
         J.append({'harness': 'search_level', 'params': {'pattern': p, 'target': t, 'sym_bonds': sb,
-                                                        'charges': [0, 1] if not T else [-1, 1]},
+                                                        'charges': [-1, 1] if wide else [0, 1]},
                   'budget_s': 2400, 'validate_every': 50, 'weight': 1500})
     # ring patterns on targets with chords / fused small rings (closure bookkeeping of the compiled search): target
     # atom labels symbolic, query labels fixed
